@@ -4,6 +4,7 @@ import (
 	"context"
 	"errors"
 	"fmt"
+	"runtime"
 	"sync"
 	"time"
 
@@ -28,6 +29,7 @@ type Loops struct {
 	mu      sync.Mutex
 	exited  map[string]bool
 	syncErr error
+	goids   map[string]uint64
 }
 
 // StartLoops starts the named loops: sync, retrieve, headerStore, dataStore, daIncluder.
@@ -39,6 +41,12 @@ func StartLoops(parent context.Context, n *Node, names ...string) *Loops {
 		l.wg.Add(1)
 		go func() {
 			defer l.wg.Done()
+			l.mu.Lock()
+			if l.goids == nil {
+				l.goids = map[string]uint64{}
+			}
+			l.goids[name] = GoID()
+			l.mu.Unlock()
 			switch name {
 			case "sync":
 				n.M.SyncLoop(ctx, l.ErrCh)
@@ -65,6 +73,29 @@ func StartLoops(parent context.Context, n *Node, names ...string) *Loops {
 		}()
 	}
 	return l
+}
+
+// GoID returns the id of the goroutine a loop runs on (0 until the loop's goroutine has started). A loop that hands work
+// to goroutines of its own is more than this one goroutine; scenarios that park "the loop" park this one.
+func (l *Loops) GoID(name string) uint64 {
+	l.mu.Lock()
+	defer l.mu.Unlock()
+	return l.goids[name]
+}
+
+// GoID returns the id of the calling goroutine (parsed from its stack header: harness-side only).
+func GoID() uint64 {
+	var buf [64]byte
+	n := runtime.Stack(buf[:], false)
+	// "goroutine 123 [running]:"
+	var id uint64
+	for _, ch := range buf[len("goroutine "):n] {
+		if ch < '0' || ch > '9' {
+			break
+		}
+		id = id*10 + uint64(ch-'0')
+	}
+	return id
 }
 
 // Exited reports whether a loop returned (before Stop).
